@@ -480,7 +480,40 @@ def p_wordlist_history(c):
     return not bad, bad, []
 
 
-PREDICATES = {"pbkdf2_history": p_pbkdf2_history, "wordlist_history": p_wordlist_history,
+def p_from_seed_history(c):
+    """HDPrivateKey.from_seed called for related seeds one after the other (prefixes, suffixes, repeats): each answer is
+    HMAC-SHA512(b"Bitcoin seed", seed) split into key and chain code, whatever was called before"""
+    import buidl.hd as HD
+    got, want = [], []
+    for rnd in range(2):
+        for tok in c["seeds"]:
+            seed = unx(tok)
+            h = hmac.new(b"Bitcoin seed", seed, hashlib.sha512).digest()
+            want.append(xb(h))
+            try:
+                k = HD.HDPrivateKey.from_seed(seed)
+                got.append(xb(k.private_key.secret.to_bytes(32, "big") + k.chain_code))
+            except Exception:
+                got.append(REJECT)
+    return got == want, got, want
+
+
+def p_codec_history(c):
+    """bytes_to_mnemonic / mnemonic_to_bytes called for related entropies one after the other, each twice: the
+    stateless answers of the independent oracle every time"""
+    import buidl.mnemonic as M
+    got, want = [], []
+    for tok in c["entropies"]:
+        e = unx(tok)
+        for _ in range(2):
+            m = M.bytes_to_mnemonic(e, 8 * len(e))
+            got.append([m, xb(M.mnemonic_to_bytes(m)), xb(M.mnemonic_to_bytes(" ".join(w[:4] for w in m.split())))])
+            want.append([" ".join(oracle_words(e)), xb(e), xb(e)])
+    return got == want, got, want
+
+
+PREDICATES = {"from_seed_history": p_from_seed_history, "codec_history": p_codec_history,
+              "pbkdf2_history": p_pbkdf2_history, "wordlist_history": p_wordlist_history,
               "wordlist_fingerprint": p_fingerprint, "wordlist_tables": p_wordlist, "roundtrip": p_roundtrip, "words_layout": p_words, "acceptance": p_accept, "pbkdf2_rfc2898": p_pbkdf2,
               "from_mnemonic": p_from_mnemonic, "prefix_same": p_prefix_same, "trezor_vector": p_trezor}
 
@@ -840,6 +873,67 @@ def run(ctx):
     for ws in [rng.choice(valid) for _ in range(ctx.n(4))]:
         pb("sha512", " ".join(ws).encode(), b"mnemonic" + rng.choice(passphrases()), 2048, [64], kind="pbkdf2v_manyrounds")
 
+    # ---- RELATED wallets called one after the other in ONE process (statelessness of from_mnemonic / from_seed):
+    # every call must give the answer of its CURRENT arguments whatever was called before.  Wallets related by moving
+    # bytes between entropy and passphrase (E, P) ~ (E‖P[:k], P[k:]); one mnemonic under many passphrases (prefixes,
+    # suffixes, empty); many mnemonics under one passphrase; spellings of one wallet; all with repeats, both orders.
+    history = []    # request lines, in call order (executed serially in this process after the first pass)
+
+    def call(e, pw, op=None, spell=None):
+        ws = oracle_words(e)
+        m = " ".join(ws) if spell is None else spell(ws)
+        line = f"{op or rng.choice(['seed', 'seed', 'master'])} {xs(m)} {xb(pw)}"
+        add("related:" + line.split(" ")[0], line)
+        history.append(line)
+
+    for base in range(ctx.n(3, 12)):
+        E = rbytes(rng, 16)
+        P = rbytes(rng, 16) if base % 2 == 0 else bytes(rng.choice(range(0x21, 0x7F)) for _ in range(16))
+        A = (E, P)
+        Bs = [(E + P[:k], P[k:]) for k in (4, 8, 12, 16)]
+        if base % 3 == 0:
+            seq = [A] + Bs + [A] + list(reversed(Bs))                       # A first
+        elif base % 3 == 1:
+            seq = Bs + [A] + Bs + [A, A]                                    # the longer wallets first
+        else:
+            seq = [A, Bs[0], A, Bs[1], Bs[0], A, Bs[3], Bs[2], Bs[3], A]    # interleaved with repeats
+        for e, pw in seq:
+            call(e, pw, op="seed" if base % 2 == 0 else None)
+        # the same shifts between two longer entropies: (E20, P) ~ (E20‖P[:4], P[4:]) ...
+        E20 = rbytes(rng, 20)
+        for e, pw in [(E20, P[:12]), (E20 + P[:4], P[4:12]), (E20 + P[:12], b""), (E20, P[:12]), (E20 + P[:8], P[8:12])]:
+            call(e, pw, op="seed")
+    for _ in range(ctx.n(2, 6)):
+        e = rbytes(rng, rng.choice(SIZES))
+        P = rbytes(rng, 12)
+        pws = [P, b"", P[:6], P[6:], P + b"x", b"x" + P, P[:-1], P[1:], P, b"", P.hex().encode(), P[:6] + P[:6], P]
+        for pw in pws:
+            call(e, pw)
+        # spellings of one wallet: prefixes / odd whitespace, between calls of another passphrase
+        call(e, P, spell=lambda ws: "  ".join(w[:4] for w in ws))
+        call(e, P + b"y")
+        call(e, P, spell=lambda ws: "\t".join(ws) + "\n")
+        call(e, P)
+    pw_shared = rbytes(rng, 9)
+    es = [rbytes(rng, n) for n in SIZES for _ in range(2)]
+    es += [es[0][:-1] + bytes([es[0][-1] ^ 1]), es[0][:15] + b"\x00", es[2] + b"\x00" * 4]   # near-identical entropies
+    for e in es + list(reversed(es)):
+        call(e, pw_shared)
+    for e in es[:4]:
+        call(e, b"")
+        call(e, pw_shared)
+    # an invalid mnemonic between two valid calls must not disturb them (and must itself be refused both times)
+    bad_m = " ".join(oracle_words(es[0])[:-1] + ["zoo" if oracle_words(es[0])[-1] != "zoo" else "abandon"])
+    for _ in range(2):
+        call(es[0], pw_shared, op="seed")
+        if oracle_decode(bad_m) is None:
+            add("related:seed", f"seed {xs(bad_m)} {xb(pw_shared)}")
+            history.append(f"seed {xs(bad_m)} {xb(pw_shared)}")
+    s0 = rbytes(rng, 64)
+    preds.append(("from_seed_history", {"seeds": [xb(x) for x in
+                  [s0, s0[:32], s0[32:], s0 + b"\x00", s0, bytes(64), s0[:63], s0, rbytes(rng, 16), s0[:32]]]}))
+    preds.append(("codec_history", {"entropies": [xb(e) for e in es + [es[0], es[1]] + list(reversed(es))]}))
+
     # ---- histories on ONE object
     def hist_ops(h):
         cat = [["r0", "r1", "r0", f"h{h}", "r1"], ["r1"] * (h + 2), [f"h{h - 1}", "r2", f"h{h}", f"r{h + 1}", "h0", f"r{3 * h}"],
@@ -895,7 +989,9 @@ def run(ctx):
 
     hp = [i for i, (kind, case) in enumerate(preds) if kind in HEAVY_PREDS or
           (kind == "pbkdf2_rfc2898" and case["iterations"] >= 1000)]
-    jobs = [("line", l) for _, l in lines if heavy_line(l)] + [("pred", preds[i][0], preds[i][1], i) for i in hp]
+    related = {l for k, l in lines if k.startswith("related:")}   # evaluated only as a history, serially, further down
+    jobs = [("line", l) for _, l in lines if heavy_line(l) and l not in related] + \
+           [("pred", preds[i][0], preds[i][1], i) for i in hp]
     rng.shuffle(jobs)
     impl_ans, hres = {}, {}
     for job, res in zip(jobs, pmap(_heavy_job, jobs, workers=ctx.workers, chunksize=1)):
@@ -904,16 +1000,38 @@ def run(ctx):
         else:
             hres[job[3]] = res
     for (kind, line), model in zip(lines, answers):
+        if line in related:
+            continue
         impl = impl_ans[line] if line in impl_ans else impl_line(line)
         if rec.compare(kind, {"line": line}, impl, model, determined=True, key=_key(line),
                        nontrivial=not all(a in ("x", "s") for a in line.split(" ")[1:])):
             rec.sample(kind, {"request": line, "answer": model})
         if impl == REJECT:
             rec.count(kind + ":reject")
+    # the related-wallet history, call after call in THIS process, each answer against the model's (stateless) answer
+    # of the same request line; the whole history twice
+    model_of = {line: a for (_, line), a in zip(lines, answers)}
+    for rnd in (1, 2):
+        for pos, line in enumerate(history):
+            got = impl_line(line)
+            # the replay re-executes the calls that preceded this one in the process (first occurrence of each) and then
+            # the call itself
+            prefix = list(dict.fromkeys(history)) + history[:pos] if rnd == 2 else history[:pos]
+            case = {"line": line, "position_in_history": pos, "round": rnd, "history": list(dict.fromkeys(prefix))}
+            rec.compare("related_history", case, got, model_of[line], determined=True, key=_key(f"hist {rnd} {pos} " + line))
+            t = line.split(" ")
+            dec = oracle_decode(uns(t[1]))
+            if dec is None:
+                ref = REJECT
+            else:
+                seed = hashlib.pbkdf2_hmac("sha512", " ".join(dec[1]).encode(), b"mnemonic" + unx(t[2]), 2048, 64)
+                ref = xb(seed if t[0] == "seed" else hmac.new(b"Bitcoin seed", seed, hashlib.sha512).digest())
+            rec.compare("related_history:hashlib", dict(case, oracle="hashlib.pbkdf2_hmac"), got, ref, determined=True,
+                        key=_key(f"histref {rnd} {pos} " + line))
     # every query a second time, in the opposite order, in this same process (objects and module tables are reused):
     # all light lines, a sample of the heavy ones; the driver likewise
     again = [i for i in range(len(lines)) if not heavy_line(lines[i][1])]
-    heavy_idx = [i for i in range(len(lines)) if heavy_line(lines[i][1])]
+    heavy_idx = [i for i in range(len(lines)) if heavy_line(lines[i][1]) and lines[i][1] not in related]
     again += ctx.sub_rng("again").sample(heavy_idx, min(len(heavy_idx), ctx.n(12)))
     again.sort(reverse=True)
     again_model = batch_parallel(drv, [model_line(lines[i][1]) for i in again], workers=ctx.workers)
@@ -938,6 +1056,14 @@ def run(ctx):
 def replay(ctx, v):
     """re-execute one recorded violation exactly; True if it still violates"""
     case = v["case"]
+    if "history" in case:
+        for l in case["history"]:
+            if l != case["line"]:
+                impl_line(l)
+        got = impl_line(case["line"])
+        if case.get("oracle"):
+            return got != v["expected"]
+        return got != ctx.driver("drv_c14").one(model_line(case["line"]))
     if "line" in case:
         return impl_line(case["line"]) != ctx.driver("drv_c14").one(model_line(case["line"]))
     ok, _, _ = eval_pred(case["pred"], case)
